@@ -479,8 +479,10 @@ def run_check(pid, tier, seed):
         "wall_s": round(wall, 2),
         "violations": len(confirmed),
     }
-    ev = VERIF / "evidence" / f"{pid}.json"
-    ev.parent.mkdir(exist_ok=True)
+    # runs against a scratch copy (BLDFM_VERIF_REPO, sensitivity protocol) must not overwrite the evidence of /repo
+    evdir = VERIF / "evidence" if "BLDFM_VERIF_REPO" not in os.environ else VERIF / "out" / "evidence-scratch"
+    ev = evdir / f"{pid}.json"
+    ev.parent.mkdir(parents=True, exist_ok=True)
     ev.write_text(json.dumps(evidence, indent=1, default=str) + "\n")
 
     print(
